@@ -27,7 +27,7 @@ type Line struct {
 	Port  int64
 }
 
-// Enc packs a line outcome: kind ipf [16 bytes] portf [sign b3 b2 b1 b0]
+// Enc packs a line outcome: kind ipf [16 bytes] portf [sign b7 .. b0] (the magnitude of the port value in 8 bytes)
 func (l Line) Enc() []byte {
 	b := []byte{byte(l.Kind)}
 	if l.Kind != 2 {
@@ -40,11 +40,11 @@ func (l Line) Enc() []byte {
 	}
 	b = append(b, byte(l.PortF))
 	if l.PortF == 1 {
-		v, s := l.Port, byte(0)
-		if v < 0 {
-			v, s = -v, 1
+		v, s := uint64(l.Port), byte(0)
+		if l.Port < 0 {
+			v, s = uint64(-l.Port), 1
 		}
-		b = append(b, s, byte(v>>24), byte(v>>16), byte(v>>8), byte(v))
+		b = append(b, s, byte(v>>56), byte(v>>48), byte(v>>40), byte(v>>32), byte(v>>24), byte(v>>16), byte(v>>8), byte(v))
 	}
 	return b
 }
@@ -69,7 +69,9 @@ func FileText(ls []Line) string {
 }
 
 var badIPs = []string{"", "1.2.3", "abc", "1.2.3.256", "1.2.3.4/24", " 1.2.3.4", "01.2.3.4", "1.2.3.4.5", "1.2.3.4 ", "fe80::1%eth0", ":::", "1..2.3"}
-var badPorts = []int64{0, 65536, -1, 100000, 2147483647, -65535, 65537}
+// out-of-range ports, also values that are a valid port only after truncation to 16 or 32 bits
+var badPorts = []int64{0, 65536, -1, 100000, 2147483647, -65535, 65537, 1 << 32, 1<<32 + 80, 1<<32 + 443, 1<<32 + 65535, 1<<32 + 1,
+	1<<63 - 1, -(1 << 32) + 80, 1<<16 + 22, 1<<48 + 8080, -(1 << 16) + 80, 1 << 31, 1<<31 + 80}
 var badJSON = []string{"{", `{"ip":`, `[1,2]`, `"str"`, `123`, `{"ip":"1.2.3.4","port":80}x`, `{'ip':'1.2.3.4'}`, `{"ip":"1.2.3.4" "port":80}`,
 	`{"ip":"1.2.3.4","port":80`, `}`, `{"ip":"1.2.3.4","port":80}}`, `{"ip":"1.2.3.4",}`, `{,}`, `{"ip"}`, `tru`, `{"ip":"1.2.3.4","port":}`}
 var badType = []string{`{"ip":5,"port":80}`, `{"ip":"1.2.3.4","port":"80"}`, `{"ip":"1.2.3.4","port":1.5}`, `{"ip":"1.2.3.4","port":1e2}`,
@@ -234,6 +236,15 @@ func RandCache(r *hlib.SplitMix64, base uint32, span int, n int, withGateway boo
 		ip := net.IP(U32(a))
 		if r.Bool() {
 			ip = ip.To16()
+		}
+		if r.Intn(5) == 0 {
+			// an IPv6 neighbour (the family of the "valid6" target lines: sometimes a target, mostly a bystander)
+			ip = net.ParseIP("2001:db8::1")
+			ip[15] = byte(r.Intn(256))
+			if r.Bool() {
+				ip = net.ParseIP("fe80::1")
+				ip[15] = byte(1 + r.Intn(200))
+			}
 		}
 		c.Put(ip, mac)
 		es = append(es, CacheEntry{IP: append([]byte(nil), ip...), MAC: append([]byte(nil), mac...)})
